@@ -1,4 +1,4 @@
-import CSSVerif.Engine2
+import CSSVerif.EngineTable
 def nats (s : String) : List Nat := if s = "" || s = "-" then [] else (s.splitOn ",").map String.toNat!
 def b (s : String) : Bool := s == "1"
 def parseRuleOut (s : String) : RuleOut :=
@@ -7,19 +7,7 @@ def parseRuleOut (s : String) : RuleOut :=
     let f := fl.toList.map (· == '1')
     { parent := p.toNat!, children := nats cs, flags := ⟨f.getD 0 false, f.getD 1 false, f.getD 2 false, f.getD 3 false⟩, twoWay := b tw, isVer := b iv }
   | _ => default
-structure UAcc where
-  empty : Array Bool := #[]
-  app : List ((Nat × Nat) × List RuleOut) := []
-  initial : List Nat := []
-  inferral : List Nat := []
-  expansion : List (List Nat) := []
-  ver : List Nat := []
-  sym : List Nat := []
-  ev : Bool := false
-instance : Inhabited UAcc := ⟨{}⟩
-def UAcc.toU (a : UAcc) : Universe :=
-  { empty := a.empty, apply := fun σ x => ((a.app.find? (·.1 == (σ, x))).map (·.2)).getD [],
-    initial := a.initial, inferral := a.inferral, expansion := a.expansion, ver := a.ver, sym := a.sym, expandVerified := a.ev }
+abbrev UAcc := UTab
 partial def runSched (u : Universe) (fuel : Nat) (iter : Bool) (k : Nat) (s : E2.St) (n : Nat) (bs : List Bool) : E2.St × Nat × List Bool :=
   let rec goK (s : E2.St) (i : Nat) (n : Nat) : E2.St × Nat × Bool :=
     if i == 0 then (s, n, true) else
@@ -49,6 +37,6 @@ partial def loop (h : IO.FS.Stream) (a : UAcc) : IO Unit := do
       let u := a.toU
       let fuel := 4 * a.empty.size + 10
       let (s, n, bs) := runSched u fuel (b it) k.toNat! (E2.initEngine u fuel c.toNat!) 0 []
-      IO.println (s!"spec={bs.map (fun b => if b then 1 else 0)} " ++ report s n); loop h a
+      IO.println (s!"spec={bs.map (fun b => if b then 1 else 0)} wfu={if wfuB a then 1 else 0} " ++ report s n); loop h a
     | _ => IO.println "bad-op"; loop h a
 def main : IO Unit := do loop (← IO.getStdin) {}
